@@ -146,8 +146,8 @@ def denoted(f):
         sign, hh, mm = tz
         off = sym.mul(sym.add(sym.mul(hh, 60), mm), 60)
         off = sym.neg(off) if sign == "-" else off
-        # FixedTimezone accepts any offset; datetime itself needs |offset| < 24 h
-        valid = And(valid, lt(sym.absv(off), 86400))
+        # -23:59 .. +23:59: a tzinfo cannot hold 24 h or more, and minutes above 59 are not a time of day
+        valid = And(valid, le(hh, 23), le(mm, 59))
         tz = ("offset", off)
     return valid, date, time, tz
 
@@ -489,3 +489,146 @@ def _dur_cases():
 @contract("pendulum.parsing.iso8601._parse_iso8601_duration", props=["C13", "C17"])
 class parse_duration:
     cases = _dur_cases()
+
+
+# =========================================================================================== totality (C17)
+import datetime as _dtm  # noqa: E402
+
+ALPHABET = "#:TZW/P+-., YMDHS"   # '#' stands for a digit (symbolic)
+
+SEED_TEMPLATES = (
+    # dates
+    "####-##-##", "########", "####-###", "#######", "####-W##-#", "####W###", "####-W##", "####W##", "####-##", "####", "######", "##",
+    # times
+    "##:##:##", "T##:##:##", "T######", "##:##", "T####", "T##", "##:##:##.######", "##:##:##,###Z", "##:##:##+##:##", "##:##-####",
+    # date-times
+    "####-##-##T##:##:##", "####-##-## ##:##:##.######", "####-##-##T##:##:##Z", "####-##-##T##:##:##+##:##", "########T######-####", "####-###T##:##", "####-W##-#T##",
+    # durations
+    "P#Y#M#DT#H#M#S", "P#W", "PT#.#S", "P#.#D", "P##Y", "PT##H", "P#.##W", "P##########D", "P", "PT",
+    # intervals
+    "####-##-##T##:##:##Z/####-##-##T##:##:##Z", "####-##-##T##:##:##Z/P#Y#M", "P#DT#H/####-##-##T##:##:##Z", "####-##-##/####-##-##", "####-##-##/P#D",
+    "P#D/####-##-##", "##:##/##:##", "P#D/P#D", "/", "####-##-##/", "/P#D",
+    # common (non ISO) forms
+    "####/##/##", "####:##:## #:#:#", "#:#", "#:", "####/##/## ##:##:##.###", "##:##:##|###", "",
+)
+
+
+def template_text(F, tmpl, hint="c"):
+    chars, cons = [], []
+    k = 0
+    for ch in tmpl:
+        if ch == "#":
+            d = F.int(f"{hint}{k}")
+            k += 1
+            chars.append(d)
+            cons.append(And(ge(d, 0), le(d, 9)))
+        else:
+            chars.append(ch)
+    return strings.CharStr(chars), cons
+
+
+def mutations(tmpl):
+    """every single-character edit of the template over ALPHABET"""
+    out = []
+    for i in range(len(tmpl) + 1):
+        for c in ALPHABET:
+            out.append(tmpl[:i] + c + tmpl[i:])
+            if i < len(tmpl) and c != tmpl[i]:
+                out.append(tmpl[:i] + c + tmpl[i + 1:])
+        if i < len(tmpl):
+            out.append(tmpl[:i] + tmpl[i + 1:])
+    for i in range(1, len(tmpl)):
+        out.append(tmpl[:i])
+    return out
+
+
+def totality_templates(tier, seed=0):
+    import random
+
+    out = list(SEED_TEMPLATES)
+    allm = []
+    for t in SEED_TEMPLATES:
+        allm += mutations(t)
+    if tier == "thorough":
+        out += allm
+    else:
+        rng = random.Random(1000 + seed)
+        # every edit of a few short seeds + a seeded sample of the rest
+        for t in ("####-##", "##:##", "P#W", "#:", "P#D/P#D", "T##"):
+            out += mutations(t)
+        out += rng.sample(allm, 900)
+    seen, uniq = set(), []
+    for t in out:
+        if t not in seen:
+            seen.add(t)
+            uniq.append(t)
+    return uniq
+
+
+_RESULT_CLASSES = None
+
+
+def _total_case(tmpl, exact):
+    class case:
+        options = {"may_raise": (ValueError,)}
+
+        def applies(text, **options):
+            return False
+
+        def args(F):
+            text, cons = template_text(F, tmpl)
+            return dict(text=text, exact=exact), cons
+
+        def result(F, text, **options):
+            raise NotImplementedError
+
+        def ensures(result, text, **options):
+            import pendulum as _pd
+
+            ok = isinstance(result, Obj) and any(issubclass(result.cls, c) for c in (_pd.DateTime, _pd.Date, _pd.Time, _pd.Duration, _pd.Interval))
+            return [("returns_a_supported_value", ok)]
+
+        def replay(conc, model, o):
+            from pyvc.verify import resolve
+
+            text = conc["text"]
+            import pendulum as _pd
+
+            fn, _ = resolve("pendulum.parser.parse")
+            try:
+                r = fn(text, exact=exact)
+                obs, bad = repr(r), not isinstance(r, (_pd.DateTime, _pd.Date, _pd.Time, _pd.Duration, _pd.Interval))
+            except ValueError as e:
+                obs, bad = f"raised {type(e).__name__}: {e}", False
+            except BaseException as e:  # noqa: BLE001
+                obs, bad = f"raised {type(e).__name__}: {e}", True
+            return {"confirmed": bool(bad), "call": {"function": "pendulum.parser.parse", "args": {"text": repr(text), "exact": exact}}, "observed": obs,
+                    "expected": "a DateTime/Date/Time/Duration/Interval, or a ValueError", "failed_clauses": [o.id.split("#")[1].split("@")[0]] if bad else [],
+                    "detail": "an exception other than ValueError escapes" if bad else "on this input the real function stays within the contract"}
+
+    case.__name__ = f"{tmpl!r}" + (",exact" if exact else "")
+    return case
+
+
+def _total_cases():
+    tier = os.environ.get("VERIF_TIER", "quick")
+    out = {}
+    for t in totality_templates(tier):
+        c = _total_case(t, False)
+        out[c.__name__] = c
+    for t in SEED_TEMPLATES:
+        c = _total_case(t, True)
+        out[c.__name__] = c
+    return out
+
+
+@contract("pendulum.parser.parse", props=["C17"])
+class parser_parse:
+    cases = _total_cases()
+
+
+transparent("pendulum.date", "pendulum.time", "pendulum.duration", "pendulum.interval", "pendulum.instance", "pendulum.datetime.DateTime.instance",
+            why="one-line factories of the public namespace")
+transparent("pendulum.parser._parse", "pendulum.parsing.parse", "pendulum.parsing.iso8601.parse_iso8601", "pendulum.parsing._parse", "pendulum.parsing._normalize", "pendulum.parsing._parse_common", "pendulum.parsing._parse_iso8601_interval",
+            "pendulum.parsing._interval_endpoint", "pendulum.parsing._Interval.__init__",
+            why="parse(): the fallback chain is executed from its source inside the per-shape totality proofs")
